@@ -2,7 +2,8 @@
    timer fires.  Statements only: each theorem is closed by [exact], pinned by
    [Check] and followed by [Print Assumptions]. *)
 From Coq Require Import List NArith Bool.
-From RB Require Import Base.Val Model.Deferral Spec.DeferralSpec Proofs.Deferral.
+From RB Require Import Base.Val Model.Deferral Model.DeferralRib Spec.DeferralSpec Spec.DeferralRibSpec
+     Proofs.Deferral Proofs.DeferralRib.
 Import ListNotations.
 Open Scope N_scope.
 
@@ -118,3 +119,83 @@ Check non_gr_peer_never_blocks :
     /\ (forall q, q <> p -> p_get (pending_of s') q = p_get (pending_of s) q)
     /\ ((forall q, q <> p -> p_get (pending_of s) q = None) -> is_completed s' = true).
 Print Assumptions non_gr_peer_never_blocks.
+
+(* (6) The composed system (machine + driver glue + deferral slice of the RIB),
+   for every disciplined history interleaved with route insertions: a deferred
+   family is handed to end_deferral at most once; while its table flag is set
+   nothing of it has been distributed and it has not been released; once the
+   restarting state is cleared (selection_deferral = None) no table flag is set
+   and every deferred family was released exactly once; before that a family has
+   been released iff no helper holds it back any more.
+   [partial] the per-prefix statement is split: this theorem is per family,
+   (7) and (8) are per end_deferral call / per insert; not proved as one
+   statement: persistence of a stored path from its insertion to the release. *)
+Theorem held_prefixes_announced_once_partial :
+  forall (c : config) (d : option N) (evs : list sysev) (f : fam) (x : N),
+    NoDup (map fst c) -> disciplined c (proj evs) = true ->
+    let st := sys_run (sys_init c d) evs in
+    (release_entries f (sys_log st) <= 1)%nat
+    /\ (t_deferring (sys_tab st) f = true ->
+        ann_count f x (sys_log st) = 0%nat /\ deferred c f = true /\ release_entries f (sys_log st) = 0%nat)
+    /\ (sys_rd st = None ->
+        t_deferring (sys_tab st) f = false /\
+        (deferred c f = true -> release_entries f (sys_log st) = 1%nat))
+    /\ (sys_rd st <> None ->
+        release_entries f (sys_log st) =
+        if deferred c f && negb (spec_blocked c (proj evs) f) then 1%nat else 0%nat).
+Proof. exact C11_held_prefixes_announced_once_partial. Qed.
+Check held_prefixes_announced_once_partial :
+  forall (c : config) (d : option N) (evs : list sysev) (f : fam) (x : N),
+    NoDup (map fst c) -> disciplined c (proj evs) = true ->
+    let st := sys_run (sys_init c d) evs in
+    (release_entries f (sys_log st) <= 1)%nat
+    /\ (t_deferring (sys_tab st) f = true ->
+        ann_count f x (sys_log st) = 0%nat /\ deferred c f = true /\ release_entries f (sys_log st) = 0%nat)
+    /\ (sys_rd st = None ->
+        t_deferring (sys_tab st) f = false /\
+        (deferred c f = true -> release_entries f (sys_log st) = 1%nat))
+    /\ (sys_rd st <> None ->
+        release_entries f (sys_log st) =
+        if deferred c f && negb (spec_blocked c (proj evs) f) then 1%nat else 0%nat).
+Print Assumptions held_prefixes_announced_once_partial.
+
+(* (7) One end_deferral(f) call on a well-formed table distributes exactly the
+   prefixes of f that have an unfiltered path, each once, and clears the flag. *)
+Theorem end_deferral_emits_held_once :
+  forall (t : table) (f : fam),
+    twf t ->
+    let l := snd (t_end t f) in
+    NoDup (map fst l)
+    /\ (forall x, In x (map fst l) <-> holds_prefix t f x = true)
+    /\ t_deferring (fst (t_end t f)) f = false.
+Proof. exact C11_end_deferral_emits_held_once. Qed.
+Check end_deferral_emits_held_once :
+  forall (t : table) (f : fam),
+    twf t ->
+    let l := snd (t_end t f) in
+    NoDup (map fst l)
+    /\ (forall x, In x (map fst l) <-> holds_prefix t f x = true)
+    /\ t_deferring (fst (t_end t f)) f = false.
+Print Assumptions end_deferral_emits_held_once.
+
+(* (8) Every table reachable by start_deferral / insert / end_deferral is well
+   formed, and an insert into a family whose flag is set returns NoChange, leaves
+   the flag set and stores the path (the prefix is held when it is unfiltered). *)
+Theorem insert_while_deferring_is_held :
+  forall (ops : list tabop) (f : fam) (x p i : N) (b : bool),
+    let t := fold_left (fun t o => fst (t_step t o)) ops [] in
+    twf t
+    /\ (t_deferring t f = true ->
+        snd (t_insert t f x p i b) = RNoChange
+        /\ t_deferring (fst (t_insert t f x p i b)) f = true
+        /\ (b = false -> holds_prefix (fst (t_insert t f x p i b)) f x = true)).
+Proof. exact C11_insert_while_deferring_is_held. Qed.
+Check insert_while_deferring_is_held :
+  forall (ops : list tabop) (f : fam) (x p i : N) (b : bool),
+    let t := fold_left (fun t o => fst (t_step t o)) ops [] in
+    twf t
+    /\ (t_deferring t f = true ->
+        snd (t_insert t f x p i b) = RNoChange
+        /\ t_deferring (fst (t_insert t f x p i b)) f = true
+        /\ (b = false -> holds_prefix (fst (t_insert t f x p i b)) f x = true)).
+Print Assumptions insert_while_deferring_is_held.
